@@ -40,6 +40,8 @@ def norm_outcome(o):
             return ['text', o[1]]
         return ['return', describe(o[1])]
     e = o[1]
+    if e.args and isinstance(e.args[0], model.Unknown):
+        return ['raise', type(e).__name__, e.args[0]]
     return ['raise', type(e).__name__, str(e)]
 
 
